@@ -69,7 +69,7 @@ void generate(sim::Rng &r, uint64_t seed, const std::string &tier, sim::Plan &p)
       long s = (long)r.below((uint64_t)nsess), dt = r.chance(600) ? 0 : r.range(1, 3);
       unsigned x = (unsigned)r.below(100);
       if (x < 55) { op.kind = "raw"; op.a = {s, (long)(r.next() & 0xffffff), r.range(1, 40), dt}; }
-      else if (x < 92) { op.kind = "rawfix"; op.a = {s, (long)r.below(24), dt}; }
+      else if (x < 92) { op.kind = "rawfix"; op.a = {s, (long)r.below(35), dt}; }
       else { op.kind = "drop"; op.a = {s, dt}; }
       p.ops.push_back(op);
     }
@@ -233,7 +233,10 @@ static const std::string FIXED[] = {
     LIT("\x1b[1~\x1b[3~\x1b[4~\x7f\x7f\x7f\r"),
     LIT("p a\r\n!0\r\n!-1\r\n!!\r\n"),
     LIT("help\r\ntree /\r\nls zz\r\ncd p\r\n"),
-    LIT("\xc2\x81\x1bq\x1bOP\x1b[15~\x1b[24~")};
+    LIT("\xc2\x81\x1bq\x1bOP\x1b[15~\x1b[24~"),
+    // negotiation verbs cut off from their option byte by the end of the segment, and the option alone
+    LIT("\xff\xfb"), LIT("\xff\xfc"), LIT("\xff\xfe"), LIT("p a\xff\xfe"), LIT("\x22"), LIT("\x01"), LIT("\xff\xfa"),
+    LIT("   \r\n"), LIT("p x; \r\n"), LIT("\x1b[3x1\r\n"), LIT("\x1bOZab\r\n")};
 
 
 void execute(const sim::Plan &plan) {
@@ -303,7 +306,7 @@ void execute(const sim::Plan &plan) {
     for (const sim::Op &op : plan.ops) {
       const sim::Op *o = &op;
       if (op.kind == "raw") { t += std::max(0L, std::min(10L, op.arg(3))) * 1000000; tl.at(t, [o, nsess] { client_send((int)(((o->arg(0) % nsess) + nsess) % nsess), hostile_bytes(o->arg(1), std::max(1L, std::min(400L, o->arg(2))))); sim::relevant(); }); }
-      else if (op.kind == "rawfix") { t += std::max(0L, std::min(10L, op.arg(2))) * 1000000; tl.at(t, [o, nsess] { client_send((int)(((o->arg(0) % nsess) + nsess) % nsess), FIXED[((o->arg(1) % 24) + 24) % 24]); sim::relevant(); }); }
+      else if (op.kind == "rawfix") { t += std::max(0L, std::min(10L, op.arg(2))) * 1000000; tl.at(t, [o, nsess] { client_send((int)(((o->arg(0) % nsess) + nsess) % nsess), FIXED[((o->arg(1) % 35) + 35) % 35]); sim::relevant(); }); }
       else if (op.kind == "drop") { t += std::max(0L, std::min(10L, op.arg(1))) * 1000000; tl.at(t, [o, nsess] { int i = (int)(((o->arg(0) % nsess) + nsess) % nsess); if (W.cfd[i] >= 0 && !W.closed[i]) { close(W.cfd[i]); W.closed[i] = true; } }); }
     }
   }
